@@ -536,6 +536,9 @@ func (e *Engine) stdStub(full string, c *ast.CallExpr, recv *Value, args []Value
 			}
 		}
 		return out, true
+	case "sync/atomic.LoadInt32", "sync/atomic.LoadInt64", "sync/atomic.LoadUint32", "sync/atomic.LoadUint64", "sync/atomic.LoadPointer":
+		note(full + ": reads memory another goroutine may write: arbitrary result, no effect")
+		return e.havocResultsPure(st, sig, full), true
 	case "io.WriteString":
 		return e.writerWrite(c, args[0], args[1], st), true
 	case "strconv.ParseInt", "strconv.ParseUint", "strconv.ParseFloat", "strconv.Atoi", "strconv.ParseBool", "strconv.ParseComplex":
